@@ -79,7 +79,15 @@ def impl_shape(dim, s, p, int_pos=False):
     pm = _pm()
     d = pm.DomainDefinition(1, 1, 0 if dim == 2 else 1, *[float(v) for v in s])
     pos = np.array(p, dtype=int) if int_pos else np.array(p, dtype=float)
-    return d.eval_shape_fun(pos), d.eval_shape_fun_der(pos), d
+    N, dN = d.eval_shape_fun(pos), d.eval_shape_fun_der(pos)
+    keepN, keepdN = np.array(N, copy=True), np.array(dN, copy=True)
+    # a caller tabulating several points keeps the returned arrays: a later evaluation at another point must not change them
+    other = np.array([0.25 * float(v) * (1 if i % 2 else -1) for i, v in enumerate(s[:dim])])
+    d.eval_shape_fun(other)
+    d.eval_shape_fun_der(other)
+    if not (np.array_equal(N, keepN) and np.array_equal(dN, keepdN)):
+        raise AssertionError("the array returned for one point was changed by the evaluation at another point (shared work array)")
+    return N, dN, d
 
 
 def oracle_shape(dim, s, p, d):
@@ -179,6 +187,23 @@ def array_arguments(ctx, cases, res):
                               [list(np.shape(N[ni, nj, nk])), np.asarray(N[ni, nj, nk]).flatten().tolist()],
                               key=("array-args.node", nelx, nely, nelz, shp, str(np.asarray(ni).tolist()), str(np.asarray(nj).tolist())))
             ctx.branch("array-args.rank%d" % len(shp))
+            # node positions for node-number arrays in any memory layout (a slice of the node table, its transpose, F order)
+            if len(shp) >= 2:
+                nn_ = np.asarray(N[ni, nj, nk])
+                for lay, arr in (("C", np.ascontiguousarray(nn_)), ("F", np.asfortranarray(nn_)), ("T", np.ascontiguousarray(nn_.T).T)):
+                    rp = call_impl(lambda: np.asarray(d.get_node_position(arr)))
+                    if rp[0] == "err":
+                        ctx.disagree("array-args.pos", case, rp[1], "ok", rp[2])
+                        continue
+                    dim_ = 2 if nelz == 0 else 3
+                    es_ = np.asarray(d.element_size[:dim_], dtype=float)
+                    want_p = np.stack([ni, nj, nk][:dim_], axis=0) * es_.reshape((dim_,) + (1,) * len(shp))
+                    okp = ctx.compare_exact("array-args.pos", dict(case, layout=lay), [list(rp[1].shape), rp[1].flatten().tolist()],
+                                            [list(want_p.shape), want_p.flatten().tolist()],
+                                            key=("array-args.pos", nelx, nely, nelz, shp, lay, str(np.asarray(ni).tolist())))
+                    if not okp:
+                        ctx.oracle_fail(f"get_node_position for a node-number array of shape {shp} in memory layout {lay}: positions are not "
+                                        f"index times element size", dict(case, layout=lay))
 
 
 def correspondence(ctx):
